@@ -1,6 +1,7 @@
 """C03 — every pass and the whole reduction terminate."""
 import itertools
 import json
+import shutil
 
 from vlib import conclude
 import drvlib as D
@@ -115,6 +116,61 @@ def stress_part(ctx):
     ctx.notes['stress_runs'] = n
 
 
+UNDECODABLE = [b'int a; /* caf\xe9 */\n\n#include <a.h>\n# 1 "f.c"\n// x\nint b = (1) ? 2 : 3;\n', b'\xff\xfe\n\n#include <b.h>\n/* c */\n']
+
+
+def undecodable_part(ctx, only=None):
+    """input files that are not valid UTF-8 (a Latin-1 byte in a comment): the pass is driven as the driver drives it — a
+    `transform` that raises is an ignored candidate, the cursor moves on — and must still report that it is finished.
+    (A pass whose `new` / `advance` raises ends the run with that exception: it ends.)"""
+    import copy as _copy
+    import tempfile
+    from pathlib import Path
+    from cvise.passes.abstract import PassResult, ProcessEventNotifier
+    import logging
+    cap = 400
+    for name, arg in T.PASSES:
+        if only and (name, arg) != tuple(only):
+            continue
+        for data in UNDECODABLE:
+            d = Path(tempfile.mkdtemp(prefix='c03u-', dir=ctx.scratch))
+            try:
+                f = d / 'a.c'
+                f.write_bytes(data)
+                p = T.make(name, arg)
+                ended = None
+                try:
+                    st = p.new(str(f), None)
+                except Exception as e:  # noqa: BLE001
+                    ended = f'new raises {type(e).__name__}'
+                    st = None
+                k = 0
+                while st is not None and k < cap:
+                    k += 1
+                    c = d / 'cand.c'
+                    c.write_bytes(data)
+                    try:
+                        res, _st2 = p.transform(str(c), _copy.deepcopy(st), ProcessEventNotifier(None))
+                    except Exception:  # noqa: BLE001 — what TestEnvironment.run does: print, carry on
+                        res = None
+                    if res in (PassResult.STOP, PassResult.ERROR):
+                        ended = res.name
+                        break
+                    try:
+                        st = p.advance(str(f), st)
+                    except Exception as e:  # noqa: BLE001
+                        ended = f'advance raises {type(e).__name__}'
+                        break
+                ctx.count()
+                if ended is None and st is not None:
+                    ctx.report(f'never-finishes-on-undecodable-input:{name}', f'{name}::{arg} on a file that is not valid UTF-8 ({data[:24]!r}…): still proposing after {cap} candidates, every transform raises and the cursor just moves on; only the give-up limit would end it',
+                               {'kind': 'undecodable', 'pass': name, 'arg': arg, 'bytes': list(data)})
+                else:
+                    ctx.nontrivial(('undecodable', name, arg, ended or 'finished'))
+            finally:
+                shutil.rmtree(d, ignore_errors=True)
+
+
 def tree_part(ctx):
     """the full verdict tree for small inputs: every accept/reject sequence ends"""
     rng = ctx.rng
@@ -189,6 +245,8 @@ def run(ctx):
             fn = (lambda i: False) if h == 'all-reject' else (lambda i: True) if h == 'all-accept' else (lambda i: i % 2 == 0) if h == 'alternate' else \
                 (lambda i: (int(h.split(':')[1]) >> (i % 30)) & 1 == 1) if isinstance(h, str) else (lambda i: h[i] if i < len(h) else False)
             drive(ctx, o['pass'], o['arg'], o['text'], fn, str(h))
+        elif o.get('kind') == 'undecodable':
+            undecodable_part(ctx, only=(o['pass'], o['arg']))
         elif o.get('kind') == 'stress':
             global STRESS
             saved, passes = STRESS, T.PASSES
@@ -210,6 +268,7 @@ def run(ctx):
             diffs.append({**sc, 'real': r[:300], 'model': m[:300]})
     ntree = tree_part(ctx)
     stress_part(ctx)
+    undecodable_part(ctx)
     main_loop_part(ctx, diffs)
     ctx.sample({'worst_candidate_counts(pass: [candidates, input length])': dict(sorted(worst.items())[:8])})
     conclude(ctx, diffs, None)
